@@ -807,8 +807,42 @@ func (w *vfWorld) update(reverts []*vfBlock, applies []*vfBlock, wellFormed bool
 		aps = append(aps, rv{b.index(), sc})
 	}
 	buffer := w.buffer
+	// the relevance filter buildContractState applies to every element diff before a change
+	// reaches RevertContracts / ApplyContracts: a contract the store holds is relevant in every
+	// status (a rejected one becomes active when its formation is connected later), an unknown
+	// id is not.  Asked twice: the second answer comes from the cache of the transaction.
+	var relBad []string
+	known := append(append([]*vfContract(nil), w.v1...), w.v2...)
 	fn := func(db *Store) error {
 		return db.UpdateChainState(func(tx index.UpdateTx) error {
+			relBad = relBad[:0]
+			for pass := 0; pass < 2; pass++ {
+				for _, c := range known {
+					var rel bool
+					var err error
+					if c.v2 {
+						rel, err = tx.V2ContractRelevant(c.id)
+					} else {
+						rel, err = tx.ContractRelevant(c.id)
+					}
+					if err != nil || !rel {
+						relBad = append(relBad, fmt.Sprintf("%s%d: relevant=%v err=%v (pass %d)", vfVer(c), c.num, rel, err, pass))
+					}
+				}
+				for _, v2 := range []bool{false, true} {
+					unknown := vfID(v2, 9999)
+					var rel bool
+					var err error
+					if v2 {
+						rel, err = tx.V2ContractRelevant(unknown)
+					} else {
+						rel, err = tx.ContractRelevant(unknown)
+					}
+					if err != nil || rel {
+						relBad = append(relBad, fmt.Sprintf("unknown id (v2=%v): relevant=%v err=%v (pass %d)", v2, rel, err, pass))
+					}
+				}
+			}
 			for _, r := range rvs {
 				if err := tx.RevertContracts(r.idx, r.sc); err != nil {
 					return fmt.Errorf("revert %v: %w", r.idx, err)
@@ -842,6 +876,9 @@ func (w *vfWorld) update(reverts []*vfBlock, applies []*vfBlock, wellFormed bool
 		}
 	}
 	ok := w.do("chain", fmt.Sprintf("Chain %s %s", coqList(rt), coqList(at)), wellFormed, fn)
+	if len(relBad) > 0 {
+		w.em.Monitor("relevance-filter-differs-from-known-contracts", strings.Join(relBad, "; "))
+	}
 	if ok && !wellFormed {
 		w.wellFormed = false
 	}
